@@ -32,6 +32,9 @@ type Oblig struct {
 	Vacuity bool
 	TimeoutS int // per-obligation solver timeout override
 	Hints    []*Term // ground integer terms offered for hypothesis instantiation
+	Script     string // rendered SMT-LIB query (renderOblig)
+	CandScript string // query with the quantified facts dropped (candidate counterexamples)
+	Trivial    bool   // discharged by the simplifier
 }
 
 type namedTerm struct {
